@@ -2,8 +2,9 @@ from propcommon import *  # noqa
 
 CFG = dict(
         level="proof",
-        lean_modules=["ElysModel.Props.C05"],
-        props_files=["ElysModel/Props/C05.lean"],
+        lean_modules=["ElysModel.Props.C05", "ElysModel.Props.C05Src"],
+        pre_cmds=[GO2LEAN],
+        props_files=["ElysModel/Props/C05.lean", "ElysModel/Props/C05Src.lean"],
         runs=[dict(mode="c05", n_quick=2500, n_thorough=72000, shards_quick=8, shards_thorough=14),
               dict(hist_run(nq=200, nt=400, sq=4, st=8, focus="lp."), driver="C05H"),
               dict(hist_run(nq=200, nt=400, sq=4, st=8, focus="amm."), driver="C05H")],
@@ -17,8 +18,8 @@ CFG = dict(
              "single-asset exit from an oracle pool that is the only thing touching its pool in the block is judged against the pool's state one block earlier (payout value <= "
              "pro-rata share of the pool's value at the oracle prices, value computed from the TRUE accounted balance book + liabilities - custody), and at the end of every "
              "block the balance stored by the accounted-pool keeper - the base of all single-sided pricing - must equal that true balance",
-        trusted_base=COMMON_TB + ["pool functions called directly on types.Pool values (keeper guards of ExitPool are modelled and proved about, not driven)"],
-        assumptions=["theorems are about the all-asset join and the pro-rata exit of non-oracle pools; the single-asset weighted join and the oracle single-sided join/exit are ported, "
+        trusted_base=COMMON_TB + [SRC_TB, "pool functions called directly on types.Pool values (keeper guards of ExitPool are modelled and proved about, not driven)"],
+        assumptions=[SRC_ASSUME, "theorems are about the all-asset join and the pro-rata exit of non-oracle pools; the single-asset weighted join and the oracle single-sided join/exit are ported, "
                      "checked differentially and their value predicates (C05.single_join_within_1e8, C05.oracle_join_value, C05.oracle_exit_value, C05.oracle_exit_never_empty) are "
                      "evaluated on every real output, but not proved",
                      "prices unchanged between join and exit (round trip is join immediately followed by exit)"],
